@@ -1,0 +1,15 @@
+//go:build verif
+
+package wire
+
+import (
+	"context"
+	"net"
+)
+
+// ServeConn serves a single client connection and returns once the connection
+// has been handled. It is only available inside verification builds and
+// exposes the result of serving a connection to the verification harness.
+func (srv *Server) ServeConn(ctx context.Context, conn net.Conn) error {
+	return srv.serve(ctx, conn)
+}
